@@ -213,3 +213,58 @@ func addrRootVal(v ssa.Value) ssa.Value {
 		}
 	}
 }
+
+func init() {
+	// C07: operator nodes are built only by the precedence-level productions (whose contracts bound the
+	// precedence of the operands), so every operator node of a parser-built tree is parenfree.
+	auxEngines["C07"] = func(g *Gen, id, tier string) auxResult {
+		res := auxResult{}
+		defs := g.cs.GhostDefs["prec"]
+		for _, name := range sortedKeys(g.funcs) {
+			fn := g.funcs[name]
+			if fn.Pkg == nil || fn.Pkg.Pkg.Name() != "memefish" || len(fn.Blocks) == 0 {
+				continue
+			}
+			for _, b := range fn.Blocks {
+				for _, in := range b.Instrs {
+					al, ok := in.(*ssa.Alloc)
+					if !ok {
+						continue
+					}
+					t := al.Type().Underlying().(*types.Pointer).Elem()
+					if defs[typeTagName(t)] == nil {
+						continue
+					}
+					res.obligations++
+					c := g.cs.Funcs[name]
+					hasLevel := false
+					if c != nil {
+						for _, e := range c.Ensures {
+							if e.Label == "level" && hasTag(c.tagsFor(e), "C07") {
+								hasLevel = true
+							}
+						}
+					}
+					oname := fmt.Sprintf("%s/operator-alloc:%s", name, typeTagName(t))
+					if hasLevel {
+						res.discharged++
+						if len(res.samples) < 4 {
+							res.samples = append(res.samples, oname+": built inside a production with a precedence-level contract -> ok")
+						}
+						continue
+					}
+					res.violations++
+					pos := g.prog.Fset.Position(al.Pos())
+					path := writeReplayText(id, sanitize(oname), fmt.Sprintf("property: %s\nobligation: %s\nan operator node (%s) is built at %s:%d in a function without a precedence-level contract: nothing bounds the precedence of its operands\nno-failing-input-found\n", id, oname, typeTagName(t), shortFile(pos.Filename), pos.Line))
+					fmt.Printf("VIOLATION property=%s replay=%s no-failing-input-found\n  %s at %s:%d\n", id, path, oname, shortFile(pos.Filename), pos.Line)
+				}
+			}
+		}
+		return res
+	}
+	propertyAssumptions["C07"] = []string{
+		"the precedence table (binPrec / unPrec and the node kinds at the selector, comparison levels) in ast/verif_contracts.go transcribes the GoogleSQL operator-precedence table; it is the reviewable trusted spec of this property",
+		"operator nodes are not modified after they are built, except the sign folding of number literals in parseUnary (which builds no operator node)",
+		"not covered: that ast/sql.go prints operator nodes exactly as `left op right` with paren() as the only source of parentheses (the printer side is checked for exprPrec only)",
+	}
+}
